@@ -4,18 +4,33 @@ Base/Bytes.vos Base/Bytes.vok Base/Bytes.required_vos: Base/Bytes.v
 Base/Dec.vo Base/Dec.glob Base/Dec.v.beautified Base/Dec.required_vo: Base/Dec.v Base/Bytes.vo
 Base/Dec.vio: Base/Dec.v Base/Bytes.vio
 Base/Dec.vos Base/Dec.vok Base/Dec.required_vos: Base/Dec.v Base/Bytes.vos
+Base/Endian.vo Base/Endian.glob Base/Endian.v.beautified Base/Endian.required_vo: Base/Endian.v Base/Bytes.vo
+Base/Endian.vio: Base/Endian.v Base/Bytes.vio
+Base/Endian.vos Base/Endian.vok Base/Endian.required_vos: Base/Endian.v Base/Bytes.vos
 Base/Table.vo Base/Table.glob Base/Table.v.beautified Base/Table.required_vo: Base/Table.v Base/Bytes.vo
 Base/Table.vio: Base/Table.v Base/Bytes.vio
 Base/Table.vos Base/Table.vok Base/Table.required_vos: Base/Table.v Base/Bytes.vos
 Gen/Crc16.vo Gen/Crc16.glob Gen/Crc16.v.beautified Gen/Crc16.required_vo: Gen/Crc16.v 
 Gen/Crc16.vio: Gen/Crc16.v 
 Gen/Crc16.vos Gen/Crc16.vok Gen/Crc16.required_vos: Gen/Crc16.v 
+Gen/Crc64.vo Gen/Crc64.glob Gen/Crc64.v.beautified Gen/Crc64.required_vo: Gen/Crc64.v 
+Gen/Crc64.vio: Gen/Crc64.v 
+Gen/Crc64.vos Gen/Crc64.vok Gen/Crc64.required_vos: Gen/Crc64.v 
+Model/Digest.vo Model/Digest.glob Model/Digest.v.beautified Model/Digest.required_vo: Model/Digest.v Base/Bytes.vo Base/Table.vo Base/Endian.vo Spec/Crc64.vo Gen/Crc64.vo
+Model/Digest.vio: Model/Digest.v Base/Bytes.vio Base/Table.vio Base/Endian.vio Spec/Crc64.vio Gen/Crc64.vio
+Model/Digest.vos Model/Digest.vok Model/Digest.required_vos: Model/Digest.v Base/Bytes.vos Base/Table.vos Base/Endian.vos Spec/Crc64.vos Gen/Crc64.vos
 Model/Slot.vo Model/Slot.glob Model/Slot.v.beautified Model/Slot.required_vo: Model/Slot.v Base/Bytes.vo Base/Dec.vo Spec/Crc16.vo Spec/Slot.vo Gen/Crc16.vo Model/SlotKeys.vo
 Model/Slot.vio: Model/Slot.v Base/Bytes.vio Base/Dec.vio Spec/Crc16.vio Spec/Slot.vio Gen/Crc16.vio Model/SlotKeys.vio
 Model/Slot.vos Model/Slot.vok Model/Slot.required_vos: Model/Slot.v Base/Bytes.vos Base/Dec.vos Spec/Crc16.vos Spec/Slot.vos Gen/Crc16.vos Model/SlotKeys.vos
 Model/SlotKeys.vo Model/SlotKeys.glob Model/SlotKeys.v.beautified Model/SlotKeys.required_vo: Model/SlotKeys.v Base/Bytes.vo Base/Table.vo Base/Dec.vo Spec/Crc16.vo Gen/Crc16.vo
 Model/SlotKeys.vio: Model/SlotKeys.v Base/Bytes.vio Base/Table.vio Base/Dec.vio Spec/Crc16.vio Gen/Crc16.vio
 Model/SlotKeys.vos Model/SlotKeys.vok Model/SlotKeys.required_vos: Model/SlotKeys.v Base/Bytes.vos Base/Table.vos Base/Dec.vos Spec/Crc16.vos Gen/Crc16.vos
+Proofs/Crc64Proofs.vo Proofs/Crc64Proofs.glob Proofs/Crc64Proofs.v.beautified Proofs/Crc64Proofs.required_vo: Proofs/Crc64Proofs.v Base/Bytes.vo Base/Table.vo Base/Endian.vo Spec/Crc64.vo
+Proofs/Crc64Proofs.vio: Proofs/Crc64Proofs.v Base/Bytes.vio Base/Table.vio Base/Endian.vio Spec/Crc64.vio
+Proofs/Crc64Proofs.vos Proofs/Crc64Proofs.vok Proofs/Crc64Proofs.required_vos: Proofs/Crc64Proofs.v Base/Bytes.vos Base/Table.vos Base/Endian.vos Spec/Crc64.vos
+Proofs/DigestProofs.vo Proofs/DigestProofs.glob Proofs/DigestProofs.v.beautified Proofs/DigestProofs.required_vo: Proofs/DigestProofs.v Base/Bytes.vo Base/Table.vo Base/Endian.vo Spec/Crc64.vo Gen/Crc64.vo Model/Digest.vo Proofs/Crc64Proofs.vo
+Proofs/DigestProofs.vio: Proofs/DigestProofs.v Base/Bytes.vio Base/Table.vio Base/Endian.vio Spec/Crc64.vio Gen/Crc64.vio Model/Digest.vio Proofs/Crc64Proofs.vio
+Proofs/DigestProofs.vos Proofs/DigestProofs.vok Proofs/DigestProofs.required_vos: Proofs/DigestProofs.v Base/Bytes.vos Base/Table.vos Base/Endian.vos Spec/Crc64.vos Gen/Crc64.vos Model/Digest.vos Proofs/Crc64Proofs.vos
 Proofs/SlotProofs.vo Proofs/SlotProofs.glob Proofs/SlotProofs.v.beautified Proofs/SlotProofs.required_vo: Proofs/SlotProofs.v Base/Bytes.vo Base/Dec.vo Spec/Crc16.vo Spec/Slot.vo Gen/Crc16.vo Model/Slot.vo Proofs/SlotWitness.vo Proofs/SlotWitnessCheck.vo
 Proofs/SlotProofs.vio: Proofs/SlotProofs.v Base/Bytes.vio Base/Dec.vio Spec/Crc16.vio Spec/Slot.vio Gen/Crc16.vio Model/Slot.vio Proofs/SlotWitness.vio Proofs/SlotWitnessCheck.vio
 Proofs/SlotProofs.vos Proofs/SlotProofs.vok Proofs/SlotProofs.required_vos: Proofs/SlotProofs.v Base/Bytes.vos Base/Dec.vos Spec/Crc16.vos Spec/Slot.vos Gen/Crc16.vos Model/Slot.vos Proofs/SlotWitness.vos Proofs/SlotWitnessCheck.vos
@@ -25,12 +40,18 @@ Proofs/SlotWitness.vos Proofs/SlotWitness.vok Proofs/SlotWitness.required_vos: P
 Proofs/SlotWitnessCheck.vo Proofs/SlotWitnessCheck.glob Proofs/SlotWitnessCheck.v.beautified Proofs/SlotWitnessCheck.required_vo: Proofs/SlotWitnessCheck.v Base/Bytes.vo Base/Dec.vo Spec/Crc16.vo Spec/Slot.vo Gen/Crc16.vo Model/SlotKeys.vo Proofs/SlotWitness.vo
 Proofs/SlotWitnessCheck.vio: Proofs/SlotWitnessCheck.v Base/Bytes.vio Base/Dec.vio Spec/Crc16.vio Spec/Slot.vio Gen/Crc16.vio Model/SlotKeys.vio Proofs/SlotWitness.vio
 Proofs/SlotWitnessCheck.vos Proofs/SlotWitnessCheck.vok Proofs/SlotWitnessCheck.required_vos: Proofs/SlotWitnessCheck.v Base/Bytes.vos Base/Dec.vos Spec/Crc16.vos Spec/Slot.vos Gen/Crc16.vos Model/SlotKeys.vos Proofs/SlotWitness.vos
+Props/C11.vo Props/C11.glob Props/C11.v.beautified Props/C11.required_vo: Props/C11.v Base/Bytes.vo Base/Endian.vo Spec/Crc64.vo Gen/Crc64.vo Model/Digest.vo Proofs/Crc64Proofs.vo Proofs/DigestProofs.vo
+Props/C11.vio: Props/C11.v Base/Bytes.vio Base/Endian.vio Spec/Crc64.vio Gen/Crc64.vio Model/Digest.vio Proofs/Crc64Proofs.vio Proofs/DigestProofs.vio
+Props/C11.vos Props/C11.vok Props/C11.required_vos: Props/C11.v Base/Bytes.vos Base/Endian.vos Spec/Crc64.vos Gen/Crc64.vos Model/Digest.vos Proofs/Crc64Proofs.vos Proofs/DigestProofs.vos
 Props/C15.vo Props/C15.glob Props/C15.v.beautified Props/C15.required_vo: Props/C15.v Base/Bytes.vo Base/Dec.vo Spec/Crc16.vo Spec/Slot.vo Gen/Crc16.vo Model/Slot.vo Proofs/SlotProofs.vo
 Props/C15.vio: Props/C15.v Base/Bytes.vio Base/Dec.vio Spec/Crc16.vio Spec/Slot.vio Gen/Crc16.vio Model/Slot.vio Proofs/SlotProofs.vio
 Props/C15.vos Props/C15.vok Props/C15.required_vos: Props/C15.v Base/Bytes.vos Base/Dec.vos Spec/Crc16.vos Spec/Slot.vos Gen/Crc16.vos Model/Slot.vos Proofs/SlotProofs.vos
 Spec/Crc16.vo Spec/Crc16.glob Spec/Crc16.v.beautified Spec/Crc16.required_vo: Spec/Crc16.v Base/Bytes.vo Base/Table.vo
 Spec/Crc16.vio: Spec/Crc16.v Base/Bytes.vio Base/Table.vio
 Spec/Crc16.vos Spec/Crc16.vok Spec/Crc16.required_vos: Spec/Crc16.v Base/Bytes.vos Base/Table.vos
+Spec/Crc64.vo Spec/Crc64.glob Spec/Crc64.v.beautified Spec/Crc64.required_vo: Spec/Crc64.v Base/Bytes.vo Base/Table.vo
+Spec/Crc64.vio: Spec/Crc64.v Base/Bytes.vio Base/Table.vio
+Spec/Crc64.vos Spec/Crc64.vok Spec/Crc64.required_vos: Spec/Crc64.v Base/Bytes.vos Base/Table.vos
 Spec/Slot.vo Spec/Slot.glob Spec/Slot.v.beautified Spec/Slot.required_vo: Spec/Slot.v Base/Bytes.vo Base/Table.vo Spec/Crc16.vo
 Spec/Slot.vio: Spec/Slot.v Base/Bytes.vio Base/Table.vio Spec/Crc16.vio
 Spec/Slot.vos Spec/Slot.vok Spec/Slot.required_vos: Spec/Slot.v Base/Bytes.vos Base/Table.vos Spec/Crc16.vos
